@@ -42,11 +42,12 @@ COMPONENTS = {
              "pyarrow", "pickle", "parquet round trip through SimFS"],
     "simulated": ["storage for the parquet step (fault-free)"],
 }
-EXPECTED_PROBES = ["step_slice", "step_take", "step_mask", "step_concat", "step_pickle",
+EXPECTED_PROBES = ["step_slice", "step_take", "step_mask", "step_concat",
+                   "step_concat_slices_of_one_parent", "step_pickle",
                    "step_parquet", "step_series", "step_int", "invalid_request_checked",
                    "chain_depth_ge_3", "nonzero_offset_array", "take_ascending_with_repeats"]
 
-OPS = ("int", "slice", "slice", "mask", "take", "take_fill", "concat", "copy", "iter", "series",
+OPS = ("int", "slice", "slice", "mask", "take", "take_fill", "concat", "concat_slices", "copy", "iter", "series",
        "frame", "pickle", "parquet", "bad_int", "bad_take", "bad_mask")
 
 
@@ -216,6 +217,36 @@ def _drive(case, root, fs, probes, sig, done):
             depth = max(depth, d2)
             probes["step_concat"] = 1
             done.append(("concat", len(mod), len(mod2)))
+        elif op == "concat_slices":
+            # several step-1 slices of ONE parent (they share its buffers), concatenated in
+            # another order, with a gap or a piece repeated: what pd.concat / groupby / Dask's
+            # shuffle hand to _concat_same_type
+            if n < 3:
+                continue
+            cuts = sorted({abs(j) % (n + 1) for j in st["idx"]} | {0, n})
+            pieces = [(a, b) for a, b in zip(cuts, cuts[1:])]
+            if len(pieces) < 3:
+                continue
+            r = random.Random(st["bits"])
+            mode = st["bits"] % 4
+            order = list(range(len(pieces)))
+            if mode == 0:
+                mid = order[1:-1]
+                r.shuffle(mid)
+                order = [order[0]] + mid + [order[-1]]       # ends in place, middle permuted
+            elif mode == 1:
+                r.shuffle(order)
+            elif mode == 2:
+                order[r.randrange(1, len(order))] = order[0]  # one piece twice, one left out
+            else:
+                del order[r.randrange(len(order))]
+            chosen = [pieces[j] for j in order]
+            parts = [arr[a:b] for a, b in chosen]
+            new = _guard(f"_concat_same_type(slices {chosen} of one parent)",
+                         lambda: type(arr)._concat_same_type(parts), sig)
+            newmod = [v for a, b in chosen for v in mod[a:b]]
+            probes["step_concat_slices_of_one_parent"] = 1
+            done.append(("concat_slices", chosen))
         elif op == "copy":
             new = _guard("copy", lambda: arr.copy(), sig)
             newmod = list(mod)
